@@ -152,8 +152,9 @@ func c02Scenario(cfg c02Config) {
 	}
 	// the requests of the not-late ticks pay for every start, every refused take and every reported drop
 	zz.Assert("C02.limit_starved_requests_never_reported_dropped", dropped+started+refusals <= droppable)
-	if !limitHit && !envCancels {
-		// all ticks were admitted (the context is cancelled only after the last tick): full conservation
+	if refusals == 0 && !envCancels {
+		// no worker was ever refused an id (so nothing can have failed "solely because of the limit") and all
+		// ticks were admitted (the context is cancelled only after the last tick): full conservation
 		zz.Assert("C02.conserved_without_limit", started+dropped == requested && residue == 0)
 	}
 }
